@@ -335,6 +335,8 @@ impl<'de, R: Reader<'de>> Deserializer<R> {
         V: de::Visitor<'de>,
     {
         let (raw, status) = self.parser.skip_one()?;
+        // the raw text is handed out as `str`
+        self.parser.check_invalid_utf8(false)?;
         if status == ParseStatus::HasEscaped {
             visitor.visit_str(as_str(raw))
         } else {
@@ -346,7 +348,10 @@ impl<'de, R: Reader<'de>> Deserializer<R> {
     where
         V: de::Visitor<'de>,
     {
-        let val = ManuallyDrop::new(self.parser.get_owned_lazyvalue(true)?);
+        let val = self.parser.get_owned_lazyvalue(true)?;
+        // the raw text is handed out as `str`
+        self.parser.check_invalid_utf8(false)?;
+        let val = ManuallyDrop::new(val);
         // #Safety
         // the json is validate before parsing json, and we pass the document using visit_bytes
         // here.
@@ -378,6 +383,8 @@ impl<'de, R: Reader<'de>> Deserializer<R> {
                 val.parse_with_padding(json, cfg)?
             };
             self.parser.read.eat(n);
+            // the strings of the document are handed out as `str`
+            self.parser.check_invalid_utf8(cfg.utf8_lossy)?;
         } else {
             let shared = unsafe {
                 if self.shared.is_none() {
@@ -388,7 +395,8 @@ impl<'de, R: Reader<'de>> Deserializer<R> {
             };
             // deserialize some json parts into `Value`, not use padding buffer, avoid the memory
             // copy
-            val.parse_without_padding(shared, &mut self.scratch, &mut self.parser)?
+            val.parse_without_padding(shared, &mut self.scratch, &mut self.parser)?;
+            self.parser.check_invalid_utf8(self.parser.cfg.utf8_lossy)?;
         };
 
         let val = ManuallyDrop::new(val);
